@@ -42,7 +42,32 @@ TYPES = {"str": str, "int": int, "float": float, "bool": bool, "list": list, "tu
          "set": set, "frozenset": frozenset, "NoneType": type(None), "bytes": bytes}
 COQ_TY = {"str": "TStr", "int": "TInt", "float": "TFloat", "bool": "TBool", "list": "TList", "tuple": "TTuple",
           "dict": "TDict", "set": "TSet", "frozenset": "TFrozen", "NoneType": "TNone", "bytes": "TBytes"}
-DEFECTS = ["K16", "K16b", "K16c", "K16d", "K16e"]
+DEFECTS = ["K16", "K16b", "K16c", "K16d", "K16e", "K16f"]
+
+
+class _Method:
+    def __repr__(self):
+        return "<bound method>"
+
+
+METHOD = _Method()
+
+
+def attr_names(x):
+    return [n for n in dir(x) if not (n.startswith("__") and n.endswith("__"))]
+
+
+def cv(v):
+    """canonical value; builtin methods (K16f) become the marker 'method'"""
+    if v is METHOD or callable(v):
+        return "method"
+    return V.canon(v)
+
+
+def cv_eq(a, b):
+    if a is METHOD or callable(a) or b is METHOD or callable(b):
+        return (a is METHOD or callable(a)) and (b is METHOD or callable(b))
+    return V.typed_eq(a, b)
 
 
 def ascii_lower(s):
@@ -201,6 +226,12 @@ def ref_search(obj, item, kw, emulate=()):
                 continue
             if value_matches(v):
                 vals[path_text(steps)] = v
+            if "K16f" in E and item is None and isinstance(v, (str, bytes)):
+                # as written: a str is searched as a custom object when the item is None
+                for n in attr_names(v):
+                    t = path_text(steps) + "." + n
+                    if text_matches(t):
+                        paths[t] = METHOD
     except RefRaise:
         return ("raise",)
     return ("ok", paths, vals)
@@ -426,7 +457,7 @@ def model_case(obj, item, cfg, locs):
         core.coq_bool(cfg["case_sensitive"]), core.coq_bool(cfg["match_string"]), core.coq_bool(cfg["use_regexp"]),
         core.coq_bool(cfg["strict_checking"]), "; ".join(core.coq_pystr(p) for p in cfg["exclude_paths"]),
         "; ".join(COQ_TY[t] for t in cfg["exclude_types"]))
-    return "run_search %s %s %s %s %s %s %s %s" % (
+    return "run_search %s %s %s %s %s %s str_attrs_ bytes_attrs_ %s %s" % (
         core.coq_bool(cfg["verbose_level"] >= 2), c, coq_tbl_bool(re_true), coq_tbl_bool(ex_true), b_tbl,
         core.coq_pystr(re_text), V.atom_to_coq(item), V.to_coq(obj))
 
@@ -437,7 +468,7 @@ def expected_of(res, verbose2):
     if res[3]:
         return "other-keys:" + ",".join(res[3])
     if verbose2:
-        return ["ok", [[k, V.canon(v)] for k, v in res[1]], [[k, V.canon(v)] for k, v in res[2]]]
+        return ["ok", [[k, cv(v)] for k, v in res[1]], [[k, cv(v)] for k, v in res[2]]]
     return ["ok", [k for k, _ in res[1]], [k for k, _ in res[2]]]
 
 
@@ -475,7 +506,7 @@ def compare(ref, res, verbose2):
             msgs.append("%s lacks %s" % (name, ", ".join(missing[:3])))
         if verbose2 and not extra and not missing:
             for k, v in il:
-                if not V.typed_eq(v, rd[k]):
+                if not cv_eq(v, rd[k]):
                     msgs.append("%s[%s] is %r, the object holds %r there" % (name, k, v, rd[k]))
                     break
     return "; ".join(msgs) if msgs else None
@@ -521,10 +552,7 @@ def oracle(ctx, obj, item, cfg, res, locs):
         for name, lst in (("matched_paths", res[1]), ("matched_values", res[2])):
             for text, val in lst:
                 cands = by_text.get(text, [])
-                if not cands:
-                    ok = False
-                    ctx.fail(case_dict(obj, item, cfg, "%s reports %s which is not a location of the object" % (name, text)),
-                             "DeepSearch reports a path that is not a location of the object")
+                if not cands:        # not a location: already reported by the comparison with the reference
                     continue
                 if len(cands) > 1 or not tame(cands[0][0]):
                     ctx.count("extract:skipped_ambiguous_or_hostile_key")
@@ -581,6 +609,7 @@ WITNESSES = {
     "K16c": (['abc'], '\\S+', {"use_regexp": True}),
     "K16d": ([b'abc'], 'a', {}),
     "K16e": ([True], 'True', {"strict_checking": False}),
+    "K16f": ({None: 'a'}, None, {}),
 }
 
 
@@ -596,12 +625,13 @@ def full_cfg(part):
 # ---------------------------------------------------------------------------
 
 def do_case(ctx, obj, item, cfg, cases, tag):
+    obj = copy.deepcopy(obj)      # (set iteration order may change in a copy: everything below uses this one object)
     locs = locations(obj)
     before = V.canon(obj)
-    work = copy.deepcopy(obj)
-    res = run_impl(work, item, kwargs_of(cfg))
-    if V.canon(work) != before:
-        ctx.fail(case_dict(obj, item, cfg, "object after the search: %r" % (work,)), "DeepSearch modified the searched object")
+    res = run_impl(obj, item, kwargs_of(cfg))
+    if V.canon(obj) != before:
+        ctx.fail(case_dict(obj, item, cfg, "object after the search: %r" % (obj,)), "DeepSearch modified the searched object")
+        return
     verbose2 = cfg["verbose_level"] >= 2
     nontrivial = res[0] != "ok" or bool(res[1]) or bool(res[2])
     ctx.seen((repr(obj), repr(item), repr(sorted(cfg.items()))), nontrivial=nontrivial)
@@ -618,7 +648,9 @@ def do_case(ctx, obj, item, cfg, cases, tag):
                   {"tag": tag, "obj": repr(obj), "item": repr(item), "options": cfg}))
 
 
-HEADER = "From DD Require Import Base.PyStr Base.Value Search.SearchModel Search.SearchShow.\nLocal Open Scope Z_scope."
+HEADER = ("From DD Require Import Base.PyStr Base.Value Search.SearchModel Search.SearchShow.\nLocal Open Scope Z_scope.\n"
+          "Definition str_attrs_ : list pystr := [%s].\nDefinition bytes_attrs_ : list pystr := [%s]." % (
+              "; ".join(core.coq_pystr(n) for n in attr_names("")), "; ".join(core.coq_pystr(n) for n in attr_names(b""))))
 
 
 def random_cases(ctx, n):
@@ -651,7 +683,7 @@ def random_cases(ctx, n):
 
 def universe_cases(ctx, limit):
     """Exhaustive small universe x a fixed item list x the mode flags."""
-    objs = V.small_universe(atoms=(None, True, 1, 1.5, "a", "Ab"), maxlen=2, depth=2, kinds="LDS")
+    objs = V.small_universe(atoms=(True, 1.5, "a", "Ab") if ctx.thorough else (None, 1, "Ab"), maxlen=2, depth=2, kinds="LD")
     items = ["a", "A", "b", 1, "1", True, None, 1.5, "1.5", "root", "[0]"]
     rng = ctx.rng
     cases = []
